@@ -670,6 +670,11 @@ func runC13(c *core.Check) {
 	c.Rule("C13.who-parses", "parseSubstitution is not called for single-quoted or block strings, nor in key position")
 	c.Rule("C13.undefined", "a variable that is not found is reported and resolution stops before the field is used")
 	c.Rule("C13.scope-order", "vars stack: inner maps are prepended; lookups walk from the front and stop at the first hit")
+	c.Rule("C13.splice-alias", "a spread that replaces one element of a list by several does not write over the elements it still has to copy")
+	if ik := c.P.Pkg("d2ir"); ik != nil {
+		// no floor: a rewrite that copies first has no in-place splice left; the positive control is the mutant that reverts fix a99dac0dd
+		c.Note("splice-alias: %d in-place splices in d2ir", checkSpliceAlias(c, "C13.splice-alias", []*packages.Package{ik}))
+	}
 	ppk := c.P.Pkg("d2parser")
 	if ppk == nil {
 		c.Broken("d2parser not loaded")
@@ -1184,4 +1189,59 @@ func callersExcludeReserved(c *core.Check, mp *core.FuncInfo) bool {
 		}
 	}
 	return n > 0 && all
+}
+
+// checkSpliceAlias: `append(append(S[:i], ins…), S[j:]...)` builds the result in S's own backing array: the inner
+// append writes the inserted elements over S[i:], and the outer one then copies S[j:] from memory that may already be
+// overwritten. It is safe only when the insertion is no longer than the gap (one element with j > i; `ins...` with
+// j == i+len(ins)), or when the prefix cannot be appended to in place (S[:i:i], a fresh copy). Returns the number of sites.
+func checkSpliceAlias(c *core.Check, rule string, pkgs []*packages.Package) int {
+	n := 0
+	for _, pk := range pkgs {
+		info := pk.TypesInfo
+		for _, fi := range c.P.Funcs(pk) {
+			seen := map[string]int{}
+			ast.Inspect(fi.Decl.Body, func(nd ast.Node) bool {
+				outer, ok := nd.(*ast.CallExpr)
+				if !ok || len(outer.Args) != 2 || !outer.Ellipsis.IsValid() {
+					return true
+				}
+				if id, ok := outer.Fun.(*ast.Ident); !ok || id.Name != "append" {
+					return true
+				}
+				inner, ok := ast.Unparen(outer.Args[0]).(*ast.CallExpr)
+				if !ok || len(inner.Args) < 2 {
+					return true
+				}
+				if id, ok := inner.Fun.(*ast.Ident); !ok || id.Name != "append" {
+					return true
+				}
+				prefix, ok1 := ast.Unparen(inner.Args[0]).(*ast.SliceExpr)
+				tail, ok2 := ast.Unparen(outer.Args[1]).(*ast.SliceExpr)
+				if !ok1 || !ok2 || exprStr(prefix.X) != exprStr(tail.X) || prefix.High == nil || tail.Low == nil {
+					return true
+				}
+				n++
+				key := fmt.Sprintf("splice:%s:%s", fname(fi), exprStr(prefix.X))
+				seen[key]++
+				if seen[key] > 1 {
+					key = fmt.Sprintf("%s#%d", key, seen[key])
+				}
+				hi, lo := strings.ReplaceAll(exprStr(prefix.High), " ", ""), strings.ReplaceAll(exprStr(tail.Low), " ", "")
+				how := ""
+				switch {
+				case prefix.Slice3 && prefix.Max != nil && exprStr(prefix.Max) == exprStr(prefix.High):
+					how = "the prefix has no spare capacity (S[:i:i]): the inner append copies"
+				case !inner.Ellipsis.IsValid() && len(inner.Args) == 2 && lo != hi && strings.HasPrefix(lo, hi+"+"):
+					how = "one element replaces at least one"
+				case inner.Ellipsis.IsValid() && len(inner.Args) == 2 && lo == hi+"+len("+strings.ReplaceAll(exprStr(inner.Args[1]), " ", "")+")":
+					how = "the inserted elements replace as many"
+				}
+				_ = info
+				c.Decide(how != "", rule, key, outer.Pos(), how, "append(append("+exprStr(prefix)+", …), "+exprStr(tail)+"...) inserts an unknown number of elements in place: with more than "+lo+"-"+hi+" of them the elements after the gap are overwritten before they are copied (`[...${a}; ${y}; zz]` with a two-element a yields the second element of a in place of ${y})")
+				return true
+			})
+		}
+	}
+	return n
 }
